@@ -139,6 +139,10 @@ func userConn(pl *plan) {
 				pl.failed.Store(true)
 				return
 			}
+			if pl.afterDup {
+				cs.fail(pl, "route-lost-after-refused-duplicate-registration", "proxy %s is running and a duplicate registration for its route was refused; a TLS connection to its endpoint now fails: %v", px.name, err)
+				return
+			}
 			cs.fail(pl, "https-tls-handshake-failed", "proxy %s: TLS handshake with the backend through the https proxy failed: %v", px.name, err)
 			return
 		}
@@ -200,6 +204,10 @@ func userConn(pl *plan) {
 			if !bytes.HasPrefix(resp, []byte("HTTP/1.1 200")) && pl.mayRefuse {
 				cs.run.Count("removed_route_refused", 1)
 				pl.failed.Store(true)
+				return
+			}
+			if !bytes.HasPrefix(resp, []byte("HTTP/1.1 200")) && pl.afterDup {
+				cs.fail(pl, "route-lost-after-refused-duplicate-registration", "proxy %s is running and a duplicate registration for its route was refused; CONNECT to its endpoint is now answered %q", px.name, resp)
 				return
 			}
 			if !bytes.HasPrefix(resp, []byte("HTTP/1.1 200")) {
@@ -398,7 +406,12 @@ func userConn(pl *plan) {
 				if !waitCh(pl.bGotAll, pl.bDone, 2*stallGrace) {
 					return
 				}
-				if d := time.Until(dialed.Add(time.Duration(cfg.IdleMs) * time.Millisecond)); d > 0 {
+				if pl.gate2 != nil {
+					// the case decides when the second exchange starts (after it has cut and restored something)
+					if !waitCh(pl.gate2, nil, 4*stallGrace) {
+						return
+					}
+				} else if d := time.Until(dialed.Add(time.Duration(cfg.IdleMs) * time.Millisecond)); d > 0 {
 					time.Sleep(d)
 				}
 				pl.inPhase2.Store(true)
@@ -432,8 +445,13 @@ func userConn(pl *plan) {
 			if phase == 1 {
 				close(pl.uGotAll)
 			} else {
-				cs.run.Count("long_lived_connections_checked_after_idle", 1)
-				cs.run.Count("long_lived_"+px.cfg.Kind, 1)
+				if pl.ctlLoss {
+					cs.run.Count("established_tunnels_alive_after_control_loss", 1)
+					cs.run.Count("control_loss_survived_"+px.cfg.Kind, 1)
+				} else {
+					cs.run.Count("long_lived_connections_checked_after_idle", 1)
+					cs.run.Count("long_lived_"+px.cfg.Kind, 1)
+				}
 			}
 		}
 		if !waitCh(pl.bGot2, pl.bDone, 2*stallGrace) {
